@@ -221,6 +221,7 @@ void orc_delivery(Delivery &d) {
     if (on("C16")) orc_c16_delivery(d);
     if (on("C17")) orc_c17_delivery(d);
     if (on("C19")) orc_c19_delivery(d);
+    if (on("C15")) orc_c15_delivery(d);
     // a one-shot source (incl. tasks and thresholds) is gone once it fired: mirrors and the C09 model follow
     if (!d.in_unstash)
         for (auto &e : d.evts) {
@@ -304,6 +305,7 @@ void orc_loop_end(LoopRun &lr) {
     if (on("C02")) orc_c02_loop_end(lr);
     if (on("C03")) orc_c03_loop_end(lr);
     if (on("C08")) orc_c08_loop_end(lr);
+    if (on("C13")) orc_c13_loop_end(lr);
     if (on("C19")) orc_c19_loop_end(lr);
 }
 
